@@ -142,7 +142,10 @@ void Aneinandergehaengt_Buchstabe_Ref(ddpstring *ret, ddpcharlistref liste) {
 	size_t num_bytes = 0;
 	ddpchar *end = &liste->arr[liste->len];
 	for (ddpchar *it = liste->arr; it != end; it++) {
-		num_bytes += utf8_num_bytes_char(*it);
+		size_t n = utf8_num_bytes_char(*it);
+		if (n != (size_t)-1) { // invalid code points contribute nothing
+			num_bytes += n;
+		}
 	}
 
 	ret->str = DDP_ALLOCATE(char, num_bytes + 1);
@@ -150,7 +153,10 @@ void Aneinandergehaengt_Buchstabe_Ref(ddpstring *ret, ddpcharlistref liste) {
 
 	char *str_it = ret->str;
 	for (ddpchar *it = liste->arr; it != end; it++) {
-		str_it += utf8_char_to_string(str_it, *it);
+		size_t n = utf8_char_to_string(str_it, *it);
+		if (n != (size_t)-1) {
+			str_it += n;
+		}
 	}
 
 	ret->str[num_bytes] = '\0';
